@@ -297,6 +297,17 @@ impl ShellEnvironment {
         }
     }
 
+    /// Checks if the innermost scope holds a variable of the given name.
+    ///
+    /// # Arguments
+    ///
+    /// * `name` - The name of the variable to check.
+    pub(crate) fn innermost_scope_has(&self, name: &str) -> bool {
+        self.scopes
+            .last()
+            .is_some_and(|(_, var_map)| var_map.get(name).is_some())
+    }
+
     //
     // Setters
     //
